@@ -28,6 +28,13 @@ Proof. induction l; cbn; congruence. Qed.
 Lemma skipn_S_len_app (A : Type) (l : list A) c r : skipn (S (length l)) (l ++ c :: r) = r.
 Proof. induction l; cbn; auto. Qed.
 
+Lemma skipn_succ (A : Type) n : forall (l : list A) x r, skipn n l = x :: r -> skipn (n + 1) l = r.
+Proof.
+  induction n as [|n IH]; intros l x r H; destruct l as [|a l]; cbn in H; try discriminate.
+  - inversion H. reflexivity.
+  - cbn. eapply IH; eauto.
+Qed.
+
 Lemma rdz_mid pre c post i : i = zlen pre -> rdz (pre ++ c :: post) i = Ok c.
 Proof.
   intros ->. unfold rdz. pose proof (zlen_nonneg pre). destruct (Z.ltb_spec (zlen pre) 0); [lia|].
